@@ -960,7 +960,7 @@ func ruleAdapterWritesPacket(c *Ctx) {
 				cv, neg := condNeg(cond)
 				val := taken != neg
 				// accepted early-outs: closed flag true; destination address nil (channel not subscribed)
-				if fl, _, ok := fieldLoad(cv); ok && (fl.Name() == "closed" || fl.Name() == "paused") && val {
+				if fl, _, ok := fieldLoad(cv); ok && (p.baseFieldName(fl) == "closed" || p.baseFieldName(fl) == "paused") && val {
 					s.Guard = true
 				}
 				if b, ok := cv.(*ssa.BinOp); ok && (b.Op == token.NEQ || b.Op == token.EQL) {
